@@ -58,7 +58,7 @@ fn case_strategy() -> BoxedStrategy<Case> {
         .boxed()
 }
 
-fn check<K: Kmer + Send + Sync>(c: &Case) -> CheckResult {
+pub fn check<K: Kmer + Send + Sync>(c: &Case) -> CheckResult {
     let k = K::k();
     let mut st = c.seed;
     let mut g: BaseGraph<K, u32> = BaseGraph::new(false);
@@ -303,6 +303,7 @@ fn build<K: Kmer + Send + Sync + 'static>(name: &'static str, _env: &Env) -> Vec
     ]
 }
 
+#[cfg(not(fuzzing))]
 pub fn jobs(env: &Env) -> Vec<Box<dyn Job>> {
     let mut out: Vec<Box<dyn Job>> = Vec::new();
     crate::kmers_ge4!(build, out, env);
